@@ -43,14 +43,13 @@ type gettyClientHandler struct {
 }
 
 func GetGettyClientHandlerInstance() *gettyClientHandler {
-	if clientHandler == nil {
-		onceClientHandler.Do(func() {
-			clientHandler = &gettyClientHandler{
-				idGenerator:  &atomic.Uint32{},
-				processorMap: make(map[message.MessageType]processor.RemotingProcessor, 0),
-			}
-		})
-	}
+	// (no unsynchronised nil check in front of the Once: that read races with the initialisation)
+	onceClientHandler.Do(func() {
+		clientHandler = &gettyClientHandler{
+			idGenerator:  &atomic.Uint32{},
+			processorMap: make(map[message.MessageType]processor.RemotingProcessor, 0),
+		}
+	})
 	return clientHandler
 }
 
